@@ -196,7 +196,9 @@ BOUNDED_NOTE = ("NOT a proof: bound = G1 programs of nesting depth <= 2 plus the
 PROPS["C01"] = dict(
     level="exploration", contracts=["contracts.inspect311", "contracts.c01_lemmas", "contracts.lowlevel", "contracts.inspect310", "contracts.c02_exiting"],
     unit_filter=lambda u: (not u.name.startswith("C20.") or u.name == "C20.contexts_active_in_frame") and u.name != "C02.inspect_frame_310.stack",
-    legs=[dict(name="c02_exit_names", cmd="PYTHONPATH={repo} " + PY312 + " legs/c02_exit_names.py"),
+    legs=[dict(name="c20_reentrant", cmd="PYTHONPATH={repo} " + PY312 + " legs/c20_reentrant.py"),
+          dict(name="c20_reentrant_py311", cmd="PYTHONPATH={repo} " + PY311 + " legs/c20_reentrant.py"),
+          dict(name="c02_exit_names", cmd="PYTHONPATH={repo} " + PY312 + " legs/c02_exit_names.py"),
           dict(name="c02_exit_names_O", cmd="PYTHONPATH={repo} " + PY312 + " -O legs/c02_exit_names.py"),
           dict(name="c01_cmanagers_O", cmd="PYTHONPATH={repo} " + PY312 + " -O legs/c01_cmanagers.py"),
           dict(name="c02_exit_names_py311", cmd="PYTHONPATH={repo} " + PY311 + " legs/c02_exit_names.py")] + old_pythons("c02_exit_names", "c02_exit_names.py") + [
@@ -221,7 +223,8 @@ PROPS["C02"] = dict(
     level="exploration", contracts=["contracts.inspect311", "contracts.inspect310", "contracts.c13", "contracts.lowlevel", "contracts.c02_exiting"],
     unit_filter=lambda u: u.name in ("C07.inspect_frame_311", "C02.inspect_frame_310.stack", "C13.push", "C20.contexts_active_in_frame",
                                      "C02.innermost_with_handler", "C02.predecessors"),
-    legs=[dict(name="c02_exit_names", cmd="PYTHONPATH={repo} " + PY312 + " legs/c02_exit_names.py"),
+    legs=[dict(name="c20_reentrant", cmd="PYTHONPATH={repo} " + PY312 + " legs/c20_reentrant.py"),
+          dict(name="c02_exit_names", cmd="PYTHONPATH={repo} " + PY312 + " legs/c02_exit_names.py"),
           dict(name="c02_exit_names_py311", cmd="PYTHONPATH={repo} " + PY311 + " legs/c02_exit_names.py")] + old_pythons("c02_exit_names", "c02_exit_names.py") + [
           dict(name="c13_options", cmd="PYTHONPATH={repo} " + PY312 + " legs/c13_options.py"), g1("running", PY312, "py312"), g1("running", PY311, "py311"),
                                              g1("running", PY310, "py310", vendor=True),
@@ -251,6 +254,8 @@ PROPS["C08"] = dict(
 PROPS["C20"] = dict(
     level="exploration", contracts=["contracts.lowlevel"], unit_filter=lambda u: u.name.startswith("C20."),
     legs=[dict(name="c20_mode", cmd="PYTHONPATH={repo} " + PY312 + " legs/c20_mode.py"),
+          dict(name="c20_reentrant", cmd="PYTHONPATH={repo} " + PY312 + " legs/c20_reentrant.py"),
+          dict(name="c20_reentrant_py311", cmd="PYTHONPATH={repo} " + PY311 + " legs/c20_reentrant.py")] + old_pythons("c20_reentrant", "c20_reentrant.py") + [
           dict(name="c01_huge_consts", cmd="PYTHONPATH={repo} " + PY312 + " legs/c01_huge_consts.py"),
           dict(name="c01_huge_consts_py310", cmd="PYTHONPATH={repo}:{verif}/.vendor " + PY310 + " legs/c01_huge_consts.py"),
           dict(name="c01_huge_consts_py311", cmd="PYTHONPATH={repo} " + PY311 + " legs/c01_huge_consts.py", thorough_only=True),
@@ -326,8 +331,9 @@ PROPS["C19"] = dict(
          "against the others' contracts)")
 PROPS["C09"] = dict(
     level="other", contracts=["contracts.glue_small", "contracts.c11", "contracts.c13"],
-    unit_filter=lambda u: u.name.startswith("C09.") or u.name.startswith("C11.fill_context") or u.name == "C13.push",
+    unit_filter=lambda u: u.name.startswith("C09.") or u.name.startswith("C11.fill_context") or u.name in ("C13.push", "C11.unwrap_generatorbased_contextmanager"),
     legs=[dict(name="c09_trees", cmd="PYTHONPATH={repo} " + PY312 + " legs/c09_trees.py"),
+          dict(name="c11_contexts", cmd="PYTHONPATH={repo} " + PY312 + " legs/c11_contexts.py"),
           dict(name="c09_trees_O", cmd="PYTHONPATH={repo} " + PY312 + " -O legs/c09_trees.py"), dict(name="c13_options", cmd="PYTHONPATH={repo} " + PY312 + " legs/c13_options.py")] + old_pythons("c09_trees", "c09_trees.py"), technique=TECH + "; bounded registration-sequence leg",
     explanation="Deductive part (all inputs): elaborate_generatorbased_contextmanager sets inner_stack = extract_child(mgr.gen, for_task=False) "
                 "iff the context is not exiting and always a description, touching nothing else; elaborate_exit_stack's loop is cut by an "
